@@ -88,6 +88,7 @@ func runC11(c *Ctx) {
 		c.verdict(okCap, c.nm(fn)+" | errChan is made with capacity >= 1", c.P.Pos(fn.Pos()), "make(chan error, 1)", "the registration's answer channel has no room for the answer: the handler blocks on it when the caller has already left", c.ats(sts)...)
 	})
 
+	c.rule("C11.O4", "the backlog of a new subscriber ends where the announced chain ends: its bound is the in-memory filter tip, which must not run ahead of what was announced (blocks above the committed filter headers were never announced; offered as backlog they are delivered again when their filter headers arrive): "+filterTipMirrorDoc, func() { c.filterTipMirror() })
 	c.rule("C11.R1", registryOwnerDoc, func() { c.registryOwner() })
 
 	c.rule("C11.O1", backlogDoc, func() { c.backlogThenRegister() })
